@@ -124,3 +124,24 @@ Qed.
 
 Lemma tight_header_text kl k kt vl v vt : tight (header_text kl k kt vl v vt) = true.
 Proof. rewrite header_text_br. apply tight_bracket. Qed.
+
+(* ---------- make + ReadFull on exactly the bytes that were written ---------- *)
+Lemma alloc_read_exact b rest :
+  (Z.of_N (nlen b) <= max_alloc)%Z ->
+  alloc_read (Z.of_N (nlen b)) (b ++ rest) = AOk b rest (nlen b).
+Proof.
+  intros H. unfold alloc_read.
+  assert (H1 : (Z.of_N (nlen b) <? 0)%Z = false) by (apply Z.ltb_ge; lia).
+  assert (H2 : (max_alloc <? Z.of_N (nlen b))%Z = false) by (apply Z.ltb_ge; exact H).
+  rewrite H1, H2. cbn [orb]. rewrite N2Z.id, read_full_exact. reflexivity.
+Qed.
+
+Lemma trim_wrap_line_lf l text :
+  wf_lay l = true -> (text = [] \/ tight text = true) ->
+  trim (wrap_line l text ++ [LF]) = text.
+Proof.
+  unfold wf_lay, wrap_line. intros H Ht. apply andb_prop in H. destruct H as [H1 H2].
+  rewrite <- !app_assoc.
+  apply trim_wrap_opt; [apply lblank_asp; exact H1| |exact Ht].
+  rewrite !forallb_app. rewrite (lblank_asp _ H2). destruct (l_cr l); reflexivity.
+Qed.
